@@ -105,9 +105,16 @@ Definition guided_gorder (w : world) (rel : list relopt) (c : ctrl) : list id :=
                  | Some a => allocation_is_valid w a (N.eqb (a_knode a) 0) | None => false end in
   first ++ filter valid others ++ filter (fun i => negb (valid i)) others.
 
-(* emptyBlocks order: the blocks the implementation released, in its order, then the rest. *)
-Definition guided_border (rba : list N) (c : ctrl) : list N :=
-  rba ++ filter (fun b => negb (nmem b rba)) (map fst (c_empty c)).
+(* emptyBlocks order.  The node's block count is tested BEFORE markEmpty, and it drops with every release, so whether a
+   block that is not released gets its first "seen empty" time in this sync depends on when it is ranged over.  The order
+   that reproduces what the implementation did: first the blocks the implementation did not release but whose tracker
+   entry carries this sync's time (marking them earlier can only see a larger count and touches nothing else), then the
+   blocks it released, in its order, then the rest (ranged over last they see the smallest count; they were not marked). *)
+Definition guided_border (now : N) (o : sync_obs) (c : ctrl) : list N :=
+  let rba := so_rba (o_out o) in
+  let others := filter (fun b => negb (nmem b rba)) (map fst (c_empty c)) in
+  let fresh b := match mget b (d_tracker (o_dump o)) with Some t => N.eqb t now | None => false end in
+  filter fresh others ++ rba ++ filter (fun b => negb (fresh b)) others.
 
 Definition model_step (f : cfg) (st : world * ctrl * bool) (s : step) : world * ctrl * bool :=
   let '(w, c, ok) := st in
@@ -115,7 +122,7 @@ Definition model_step (f : cfg) (st : world * ctrl * bool) (s : step) : world * 
   | Ev e => let '(w', c') := apply_event (f_fixaff f) e (w, c) in (w', c', ok)
   | Sync o =>
       let '(c', out) := sync_ipam f w (nodes_to_check c)
-                                  (guided_gorder w (so_rel (o_out o))) (guided_border (so_rba (o_out o))) c in
+                                  (guided_gorder w (so_rel (o_out o))) (guided_border (w_now w) o) c in
       (w, c', ok && out_eqb out (o_out o) && dump_eqb (dump_of c') (o_dump o))
   | SyncF o done =>
       let '(c', out) := sync_ipam_failed f w (nodes_to_check c) (guided_gorder w (so_rel (o_out o)))
